@@ -82,6 +82,16 @@ def generate(run_seed, tier):
                     return False
             return True
         inter = [i for i in inter if separates(i)]
+
+        # the member's own declared divisions must not change when it is optimized / lowered: where they do (frame
+        # reductions, head of a partition selection, ... - C06-type defects, not claimed) a cut merely exposes that
+        def stable_divisions(i):
+            try:
+                c = g.pool[i]
+                return pristine.canon_divisions(c) == pristine.canon_divisions(c.optimize()) == pristine.canon_divisions(c.optimize(fuse=False))
+            except Exception:
+                return False
+        inter = [i for i in inter if stable_divisions(i)]
         if not inter:
             return None
         has_delayed_src = any(op["op"] == "from_delayed" for op in recipe["ops"])
